@@ -16,7 +16,8 @@ TRUSTED_BASE = [
     "Lean 4.33 kernel; axioms allowed in property theorems: propext, Classical.choice, Quot.sound (audited by #print axioms on every run); no sorry/admit/native_decide/bv_decide/user axioms",
     "hand-written Lean model of bc-envelope (lean/EnvVerif/Model); its fidelity to /repo is checked by differential execution of generated scenarios (correspondence), which sees what the generators reach",
     "EVL interpreter and canonicaliser in the Rust harness (harness/src/interp.rs) and in Lean (Model/Interp.lean)",
-    "dependencies modelled by stated laws, not verified: SHA-256 (bc-crypto), ChaCha20-Poly1305, signatures, KEMs, SSKR, DEFLATE/CRC-32, bytewords/UR, RNG, dcbor byte codec (NFC, Date, float reduction)",
+    "dependencies modelled by stated laws, not verified: SHA-256 (bc-crypto; the model computes it with its own implementation and digests are compared), ChaCha20-Poly1305, signatures, KEMs, SSKR, DEFLATE/CRC-32 of compressed elements, RNG, dcbor byte codec (NFC, Date, float reduction)",
+    "dependencies modelled concretely and compared byte for byte by the correspondence check: the dCBOR tree codec, dcbor's map ordered by encoded key (sets and maps as content), bytewords (minimal) + CRC-32 + UR framing of bc-ur / ur (ASCII input only)",
 ]
 
 
